@@ -161,4 +161,11 @@ MUTANTS = [
  {"id": "single-guard-blank-lines-recorded", "kind": "break", "edits": [{"patch": "/verif/benign/h8-plist-3/patch.diff"}, ("src/plist.rs", "                if tstart < idx {", "                if tstart <= idx {")], "expect": ["D3-"]},
  {"id": "single-guard-line-from-first-non-blank", "kind": "break", "edits": [{"patch": "/verif/benign/h8-plist-3/patch.diff"}, ("src/plist.rs", "PlistEntry::from_bytes(&bytes[start..idx])?", "PlistEntry::from_bytes(&bytes[tstart..idx])?")], "expect": ["D3-"]},
  {"id": "single-guard-last-line-guard-on-start", "kind": "break", "edits": [{"patch": "/verif/benign/h8-plist-3/patch.diff"}, ("src/plist.rs", "        if tstart < bytes.len() {", "        if start < bytes.len() {")], "expect": ["D3-"]},
+
+ # the argument as rest[number of leading blanks ..] (take_while(blank).count())
+ {"id": "leading-blank-count-benign", "kind": "benign", "edits": [{"patch": "/verif/benign/h9-plist-2/patch.diff"}]},
+ {"id": "leading-blank-count-counts-non-blanks", "kind": "break", "edits": [{"patch": "/verif/benign/h9-plist-2/patch.diff"}, ("src/plist.rs", ".take_while(|c| c.is_ascii_whitespace())", ".take_while(|c| !c.is_ascii_whitespace())")], "expect": ["D1-"]},
+ {"id": "leading-blank-count-all-blanks", "kind": "break", "edits": [{"patch": "/verif/benign/h9-plist-2/patch.diff"}, ("src/plist.rs", ".take_while(|c| c.is_ascii_whitespace())\n                    .count();", ".filter(|c| c.is_ascii_whitespace())\n                    .count();")], "expect": ["D1-"]},
+ {"id": "leading-blank-count-one-more", "kind": "break", "edits": [{"patch": "/verif/benign/h9-plist-2/patch.diff"}, ("src/plist.rs", "Some(OsStr::from_bytes(&rest[skip..]))", "Some(OsStr::from_bytes(&rest[skip + 1..]))")], "expect": ["D1-"]},
+ {"id": "leading-blank-count-counted-elsewhere", "kind": "break", "edits": [{"patch": "/verif/benign/h9-plist-2/patch.diff"}, ("src/plist.rs", "                let skip = rest\n", "                let skip = bytes\n")], "expect": ["D1-"]},
 ]
